@@ -11,24 +11,26 @@ type HostSpec struct {
 }
 
 var Hosts = map[string]*HostSpec{
-	"p":     {Name: "p", Params: []string{"any"}},                               // event, returns its argument
-	"pv":    {Name: "pv", Params: []string{"any", "any"}},                       // event on k, returns v
-	"pe":    {Name: "pe", Params: []string{"any"}},                              // event, then fails
-	"rd":    {Name: "rd", Params: []string{"string", "any"}},                    // read-back probe
-	"pc":    {Name: "pc", Params: []string{"any"}},                              // catch-variable probe
-	"mb":    {Name: "mb", Params: []string{"any"}},                              // begin of an unordered (map iteration) segment
-	"me":    {Name: "me", Params: []string{"any"}},                              // end of it
-	"h0":    {Name: "h0", Params: []string{}},                                   // Go function, no parameters
-	"h1":    {Name: "h1", Params: []string{"any"}},                              // returns a
-	"h2":    {Name: "h2", Params: []string{"any", "any"}},                       // returns a
-	"h3":    {Name: "h3", Params: []string{"any", "any", "any"}},                // returns a
-	"hv":    {Name: "hv", Params: []string{"any", "any"}, Variadic: true},       // (a, rest...) returns len(rest)
-	"hs":    {Name: "hs", Params: []string{"string", "int64"}},                  // typed parameters, returns s
-	"hvs":   {Name: "hvs", Params: []string{"string", "int64"}, Variadic: true}, // (s, nums...) returns len(nums)
-	"hcb":   {Name: "hcb", Params: []string{"func"}},                            // Go function taking func(): calls it
-	"heach": {Name: "heach", Params: []string{"any", "func"}},                   // Go function taking (list, func(interface{})): calls it per element
-	"pg":    {Name: "pg", Params: []string{"any"}},                              // event on the goroutine trace
-	"hg":    {Name: "hg", Params: []string{"any"}, Variadic: true},              // Go function meant to be started with `go`: event on the goroutine trace
-	"gdone": {Name: "gdone", Params: []string{}},                                // goroutine completion signal
-	"gwait": {Name: "gwait", Params: []string{"any"}},                           // wait for n completion signals
+	"p":       {Name: "p", Params: []string{"any"}},                               // event, returns its argument
+	"pv":      {Name: "pv", Params: []string{"any", "any"}},                       // event on k, returns v
+	"pe":      {Name: "pe", Params: []string{"any"}},                              // event, then fails
+	"rd":      {Name: "rd", Params: []string{"string", "any"}},                    // read-back probe
+	"pc":      {Name: "pc", Params: []string{"any"}},                              // catch-variable probe
+	"mb":      {Name: "mb", Params: []string{"any"}},                              // begin of an unordered (map iteration) segment
+	"me":      {Name: "me", Params: []string{"any"}},                              // end of it
+	"h0":      {Name: "h0", Params: []string{}},                                   // Go function, no parameters
+	"h1":      {Name: "h1", Params: []string{"any"}},                              // returns a
+	"h2":      {Name: "h2", Params: []string{"any", "any"}},                       // returns a
+	"h3":      {Name: "h3", Params: []string{"any", "any", "any"}},                // returns a
+	"hv":      {Name: "hv", Params: []string{"any", "any"}, Variadic: true},       // (a, rest...) returns len(rest)
+	"hs":      {Name: "hs", Params: []string{"string", "int64"}},                  // typed parameters, returns s
+	"hvs":     {Name: "hvs", Params: []string{"string", "int64"}, Variadic: true}, // (s, nums...) returns len(nums)
+	"hcb":     {Name: "hcb", Params: []string{"func"}},                            // Go function taking func(): calls it
+	"heach":   {Name: "heach", Params: []string{"any", "func"}},                   // Go function taking (list, func(interface{})): calls it per element
+	"pg":      {Name: "pg", Params: []string{"any"}},                              // event on the goroutine trace
+	"hg":      {Name: "hg", Params: []string{"any"}, Variadic: true},              // Go function meant to be started with `go`: event on the goroutine trace
+	"hgp":     {Name: "hgp", Params: []string{"any"}},                             // Go function meant to be started with `go`: event on the goroutine trace, then panics
+	"gsettle": {Name: "gsettle", Params: []string{}},                              // waits until the script's goroutines have ended
+	"gdone":   {Name: "gdone", Params: []string{}},                                // goroutine completion signal
+	"gwait":   {Name: "gwait", Params: []string{"any"}},                           // wait for n completion signals
 }
